@@ -40,7 +40,8 @@ def run(chk, repo):
         ("C13-A9", "coordinates recorded before data is added; popped and promoted; tree maps '/' and every subtree entry", 5),
     ):
         chk.rule(rid, text, m)
-    chk.attempt(a1, chk, repo)
+    chk.attempt(a1_eval, chk, repo)
+    chk.attempt(a1, chk, repo, covered_by="a1_eval", rules=("C13-A1",))
     chk.attempt(a2_a5, chk, repo)
     chk.attempt(open_wiring, chk, repo)
     chk.attempt(a6_a7, chk, repo)
@@ -61,6 +62,44 @@ def run(chk, repo):
     chk.count("functions", 12)
 
 
+def a1_eval(chk, repo):
+    """C13-A1 by evaluation: categorize_filenames on model file lists of 3..12 entries whose keywords are NOT in sorted order
+    (ProductFileName10 before 02, as a dict keeps them in file order): first = volume directory, second = leader, last = trailer,
+    everything in between = imagery, in file order"""
+    from collections import OrderedDict
+    from ..shapes import Const, DictS, Interp, ListLit, ShapeError, TupS, _Raise
+    sm = repo.module("ceos_alos2.summary")
+    where = f"{sm.relpath}:categorize_filenames"
+    n_ok = 0
+    for n in (3, 4, 5, 8, 12):
+        keys = [f"L15ProductFileName{i:02d}" for i in range(1, n + 1)]
+        if n > 4:
+            keys[2], keys[-2] = keys[-2], keys[2]  # keyword order is not file order
+        files = [f"FILE-{i}" for i in range(n)]
+        I = Interp(repo)
+        try:
+            out = I.call(I.resolve_global(sm, "categorize_filenames"), [DictS(OrderedDict((k, Const(f)) for k, f in zip(keys, files)))], {})
+        except _Raise as e:
+            chk.fail("C13-A1", where, f"categorize_filenames raises on a list of {n} files ({e.what[:80]})", key=f"categorize:eval:{n}")
+            continue
+        except (ShapeError, RecursionError) as e:
+            raise AnalysisError(f"{where}: cannot be evaluated on a model file list ({str(e)[:100]})")
+        if not isinstance(out, DictS):
+            raise AnalysisError(f"{where}: does not give a dict on a model file list ({out!r:.60})")
+
+        def plain(v):
+            if isinstance(v, Const):
+                return v.v
+            if isinstance(v, (ListLit, TupS)):
+                return [plain(x) for x in v.elts]
+            return repr(v)
+        got = {k: plain(v) for k, v in out.items.items()}
+        want = {"volume_directory": files[0], "sar_leader": files[1], "sar_imagery": files[2:-1], "sar_trailer": files[-1]}
+        if chk.require(got == want, "C13-A1", where, f"{n} files: first = volume directory, second = leader, last = trailer, the {n - 3} in between = imagery in file order",
+                       f"for the file list {files} (keywords {keys}) the roles are {got}, expected {want}", key=f"categorize:eval:{n}"):
+            n_ok += 1
+
+
 def a1(chk, repo):
     sm = repo.module("ceos_alos2.summary")
     cf = sm.func("categorize_filenames")
@@ -70,15 +109,16 @@ def a1(chk, repo):
         if isinstance(n, ast.Assign) and isinstance(n.targets[0], ast.Tuple) and any(isinstance(e, ast.Starred) for e in n.targets[0].elts):
             unpack = n
     if unpack is None:
-        chk.fail("C13-A1", where, "file roles are no longer taken by `first, second, *middle, last = filenames`", key="categorize:unpack")
-        return
+        raise AnalysisError(f"{where}: file roles are not taken by a starred unpacking `first, second, *middle, last = filenames`; not decided by the form rule")
     elts = unpack.targets[0].elts
     shape = [("*" if isinstance(e, ast.Starred) else "") for e in elts]
     names = [norm(e.value if isinstance(e, ast.Starred) else e) for e in elts]
     chk.require(shape == ["", "", "*", ""], "C13-A1", where, f"positional unpacking {names[0]}, {names[1]}, *{names[2]}, {names[3]}",
                 f"positional unpacking is {[s + n for s, n in zip(shape, names)]}: roles shift (first = volume directory, second = leader, last = trailer)", key="categorize:positions")
     src = Flow(cf).expand(unpack.value)
-    chk.require("values()" in norm(src), "C13-A1", where, "file names are the summary values in file order", f"file names come from {short(src, 50)}", key="categorize:values")
+    if "values()" not in norm(src):
+        raise AnalysisError(f"{where}: file names come from {short(src, 50)}, not from <mapping>.values(); not decided by the form rule")
+    chk.ok("C13-A1", where, "file names are the summary values in file order")
     ret = [n for n in cf.own_nodes() if isinstance(n, ast.Return)]
     want = dict(zip(["volume_directory", "sar_leader", "sar_imagery", "sar_trailer"], names))
     got = {}
